@@ -434,6 +434,74 @@ example : PipeR.iterate [] [⟨[⟨"INFO".toList, "b".toList, []⟩], .raise ⟨
 example : HttpR.iterate (fun _ => true) [] [⟨[⟨"INFO".toList, "b".toList, []⟩], .raise ⟨"E".toList, "x".toList, none⟩, []⟩]
     = [.log ⟨"INFO".toList, "b".toList, []⟩, errEv ⟨"E".toList, "x".toList, none⟩] := by decide
 
+/-! ## the log sink: every result / output schema shape -/
+
+/-- once flushed into a writer — whatever its schema, the EMPTY schema of a `-> None` method or of an empty-output
+stream included — every message is written through at once -/
+theorem C08_sink_write_through (s : Sink) (schemaEmpty : Bool) (l : Log) (h : s.writer = some schemaEmpty) :
+    sinkStep s (.call l) = (s, [l]) := by
+  cases schemaEmpty <;> simp [sinkStep, h]
+
+/-- nothing is lost, duplicated or reordered by the sink: what was written plus what is still buffered is exactly what
+was emitted, in order (for every interleaving of emit / flush / reset and every schema; from any state in which an
+attached writer means an empty buffer — the initial state and every state reachable from it) -/
+theorem C08_sink_conservation (ops : List SinkOp) (s : Sink) (hinv : s.writer ≠ none → s.buffer = []) :
+    (sinkRun s ops).2 ++ (sinkRun s ops).1.buffer = s.buffer ++ sinkCalled ops := by
+  induction ops generalizing s with
+  | nil => simp [sinkRun, sinkCalled]
+  | cons op r ih =>
+    cases op with
+    | call l =>
+      rcases hw : s.writer with _ | e
+      · have := ih { s with buffer := s.buffer ++ [l] } (by simp [hw])
+        simp [sinkRun, sinkStep, hw, sinkCalled] at this ⊢
+        exact this
+      · have hb : s.buffer = [] := hinv (by simp [hw])
+        have := ih s hinv
+        cases e <;> simp [sinkRun, sinkStep, hw, sinkCalled, hb] at this ⊢ <;> simp [this]
+    | flush e =>
+      have := ih ⟨[], some e⟩ (by simp)
+      simp [sinkRun, sinkStep, sinkCalled] at this ⊢
+      simp [this]
+    | reset =>
+      have := ih { s with writer := none } (by simp)
+      simp [sinkRun, sinkStep, sinkCalled] at this ⊢
+      exact this
+
+theorem C08_sink_conservation_init (ops : List SinkOp) :
+    (sinkRun ⟨[], none⟩ ops).2 ++ (sinkRun ⟨[], none⟩ ops).1.buffer = sinkCalled ops := by
+  simpa using C08_sink_conservation ops ⟨[], none⟩ (by simp)
+
+/-- a unary call (`flush_contents` with the result schema BEFORE the method runs, then the method logs): all logs are
+written, in order, none left behind — also for a method declared `-> None` -/
+theorem C08_sink_unary (schemaEmpty : Bool) (logs : List Log) :
+    sinkRun ⟨[], none⟩ (.flush schemaEmpty :: logs.map .call) = (⟨[], some schemaEmpty⟩, logs) := by
+  have key : ∀ (ls : List Log), sinkRun ⟨[], some schemaEmpty⟩ (ls.map .call) = (⟨[], some schemaEmpty⟩, ls) := by
+    intro ls
+    induction ls with
+    | nil => rfl
+    | cons l r ih =>
+      simp only [List.map_cons, sinkRun]
+      rw [C08_sink_write_through _ schemaEmpty l rfl, ih]
+      rfl
+  simp [sinkRun, sinkStep, key]
+
+/-- a stream method / `on_cancel` hook (logs first, `flush_contents` into the output stream afterwards) -/
+theorem C08_sink_buffer_then_flush (schemaEmpty : Bool) (logs : List Log) :
+    sinkRun ⟨[], none⟩ (logs.map .call ++ [.flush schemaEmpty]) = (⟨[], some schemaEmpty⟩, logs) := by
+  have key : ∀ (ls b : List Log), sinkRun ⟨b, none⟩ (ls.map .call ++ [.flush schemaEmpty]) = (⟨[], some schemaEmpty⟩, b ++ ls) := by
+    intro ls
+    induction ls with
+    | nil => intro b; simp [sinkRun, sinkStep]
+    | cons l r ih =>
+      intro b
+      simp only [List.map_cons, List.cons_append, sinkRun, sinkStep]
+      rw [ih]
+      simp
+  simpa using key logs []
+
+theorem sink_shape_recognised : VgiVerif.Gen.LogDispatch.sinkShapeRecognised = true := by decide
+
 /-! ## (b) robustness and fields -/
 
 open VgiVerif.Gen.LogDispatch (shape)
